@@ -80,7 +80,10 @@ static bool run_history(const Cfg& cfg, const Run& run_in, const std::vector<Op>
     auto ext = [&]() { return run.comp == 1 ? ".gz" : run.comp == 2 ? ".xz" : ""; };
     auto comp = run.comp == 1 ? CborOutputCompression::GZIP : run.comp == 2 ? CborOutputCompression::XZ : CborOutputCompression::NO_COMPRESSION;
     int nout = 0;
-    auto new_name = [&]() { std::string n = base + std::to_string(nout++); names.push_back(n); unlink((n + ext()).c_str()); unlink((n + ext() + ".part").c_str()); return n; };
+    auto new_name = [&]() { std::string n = base + std::to_string(nout++); names.push_back(n); unlink((n + ext()).c_str()); unlink((n + ext() + ".part").c_str());
+        // environment: an earlier run died while writing to this name and left its '.part' file behind - it must not leak into the new output
+        if (run.sink == S_FILE) { std::string junk(300, 0); for (size_t i = 0; i < junk.size(); i++) junk[i] = (char)(i * 11 + 5); spit(n + ext() + ".part", junk); }
+        return n; };
     std::unique_ptr<CdnsExporter> E;
     struct Cleanup { std::vector<std::string>& n; std::function<std::string()> e; std::unique_ptr<CdnsExporter>& E; ~Cleanup() { E.reset(); for (auto& x : n) { unlink((x + e()).c_str()); unlink((x + e() + ".part").c_str()); unlink(x.c_str()); } } } cleanup{names, ext, E};
     auto fail = [&](const std::string& k, const std::string& w) { V.push_back({k, w}); };
@@ -219,7 +222,7 @@ static Profile profile(const std::string& name, bool T) {
     Profile p;
     auto PS = [](uint64_t m, uint64_t tps, int h, int c = 0) { return ParamSpec{m, tps, h, c}; };
     if (name == "flush") {
-        p.alphabet = {"qr1", "qr5", "qr6", "qr7", "aec0", "aec1", "mm1", "wb", "rotx", "act0", "act1", "act7"};
+        p.alphabet = {"qr1", "qr5", "qr6", "qr7", "aec0", "aec1", "aec4", "mm1", "wb", "rotx", "act0", "act1", "act7"};
         for (uint64_t m0 : {0, 1, 2, 3}) for (uint64_t m1 : {1, 2}) for (int h : {0, 1, 2})
             p.cfgs.push_back({"m" + std::to_string(m0) + "_" + std::to_string(m1) + "_h" + std::to_string(h), {PS(m0, 1000000, h), PS(m1, 1000000, h)}, PS(2, 1000, 0)});
         // exactly one of the two other-data hint bits set (address events only / malformed messages only)
@@ -248,13 +251,13 @@ static Profile profile(const std::string& name, bool T) {
         p.cfgs.push_back({"h0_t2p32_m2", {PS(2, 1ULL << 32, 0), PS(3, 5000000000ULL, 0)}, PS(2, 1000, 0)});
         p.runs = {{"", S_MEM, 0}}; p.depth_q = 3; p.depth_t = 4;
     } else if (name == "wellformed") {
-        p.alphabet = {"qr1", "qr1s3", "qr5s3", "qr0s1", "aec0s3", "mm0", "mm1s3", "mm2s1", "wb", "rotx", "rotn", "addbp", "act1", "act0"};
+        p.alphabet = {"qr1", "qr1s3", "qr5s3", "qr0s1", "aec0s3", "mm0", "mm1s3", "mm2s1", "wb", "rotx", "rotn", "rots", "addbp", "act1", "act0"};   // rots: rotation onto the first name again (named outputs)
         p.cfgs.push_back({"m2", {PS(2, 1000000, 0), PS(1, 1000, 1, true)}, PS(3, 1000, 0, true)});
         p.cfgs.push_back({"m0", {PS(0, 1000000, 0, 2)}, PS(1, 1000, 0, 3)});   // collection parameters present but empty
         p.cfgs.push_back({"m10000_h4", {PS(10000, 1, 4), PS(2, 1, 2)}, PS(1, 1000, 0)});
         p.cfgs.push_back({"m2_h6_h7", {PS(2, 1000000, 6), PS(3, 1000, 7)}, PS(1, 1000, 6)});
         p.cfgs.push_back({"m3_emptylists", {PS(3, 1000000, 0, 4)}, PS(1, 1000, 0, 4)});   // opcodes / rr-types present but empty: still mandatory members of the preamble   // hint masks that keep every other member
-        p.runs = {{"", S_MEM, 0}}; p.depth_q = 4; p.depth_t = 5;
+        p.runs = {{"", S_MEM, 0}, {"m2", S_FILE, 0}, {"m2", S_FILE, 1}}; p.depth_q = 4; p.depth_t = 5;   // named outputs (plain, gzip) for the first configuration: what a name holds after rotations onto it
     } else if (name == "times") {
         p.alphabet = {"qr2", "qr4", "qr3", "qr1", "qr0", "mm0", "mm3", "mm1", "aec0", "act1", "act0", "wb"};
         for (int h : {0, 5, 1}) p.cfgs.push_back({"h" + std::to_string(h), {PS(10000, 1000000, h)}, PS(2, 1000, 0)});
@@ -308,6 +311,7 @@ int main(int argc, char** argv) {
     struct Task { size_t cfg, run; int o1, o2; };  // o1 = -1: the empty history; o2 = -1: histories of length 1
     std::vector<Task> tasks;
     for (size_t c = 0; c < pf.cfgs.size(); c++) for (size_t r = 0; r < pf.runs.size(); r++) {
+        if (!pf.runs[r].cfg.empty() && pf.runs[r].cfg != pf.cfgs[c].name) continue;   // a run restricted to one configuration
         tasks.push_back({c, r, -1, -1});
         for (size_t i = 0; i < A; i++) { tasks.push_back({c, r, (int)i, -1}); if (D >= 2) for (size_t j = 0; j < A; j++) tasks.push_back({c, r, (int)i, (int)j}); }
     }
@@ -315,7 +319,7 @@ int main(int argc, char** argv) {
         // explicit-state search with de-duplication: state = history reaching it (replayed on a fresh exporter), frontier expanded breadth first,
         // every transition executed on the real object and fully checked (incl. the outputs after destruction); extensions of an already seen state are pruned
         int DB = atoi(a.kv["bfs"].c_str()); g_abstract_key = a.kv.count("abstract") > 0;
-        struct BT { size_t cfg, run; }; std::vector<BT> bts; for (size_t c = 0; c < pf.cfgs.size(); c++) for (size_t r = 0; r < pf.runs.size(); r++) { if (pf.cfgs[c].sets[0].max_items >= (1ULL << 32)) continue;   // a block that is never full has no finite abstract state space: stateless search only
+        struct BT { size_t cfg, run; }; std::vector<BT> bts; for (size_t c = 0; c < pf.cfgs.size(); c++) for (size_t r = 0; r < pf.runs.size(); r++) { if (pf.cfgs[c].sets[0].max_items >= (1ULL << 32)) continue; if (!pf.runs[r].cfg.empty() && pf.runs[r].cfg != pf.cfgs[c].name) continue;   // a block that is never full has no finite abstract state space: stateless search only
             bts.push_back({c, r}); }
         Pool bp(a.jobs);
         bp.run(bts.size(), [&](uint64_t ti, Result& R) {
